@@ -438,6 +438,16 @@ impl World {
         self.last_events[i].push(desc.clone());
         self.last_raw[i].push(ev.clone());
         self.all_events[i].push(desc);
+        // C14 / C02, handler part: a request is attributed to exactly the source address its datagram
+        // was observed from
+        if let HandlerOut::Request(a, _) = &ev {
+            if !self.delivered_now.is_empty() && !self.delivered_now.iter().any(|d| d.0 == i && d.2 == a.socket_addr) {
+                let seen: Vec<SocketAddr> = self.delivered_now.iter().filter(|d| d.0 == i).map(|d| d.2).collect();
+                let detail = format!("node {i} attributes a request to {} but the datagrams it received in this step came from {:?}", a.socket_addr, seen);
+                self.violate("C14", "a PING is answered with exactly the source IP and port the request was observed from", "request-source-rewritten", detail.clone());
+                self.violate("C02", "presenting a datagram from another source address never produces a delivered message with different attribution", "request-source-rewritten", detail);
+            }
+        }
         // C12, handler part: the record of an incoming session is never older than the one the
         // application supplied when it answered the who-are-you query for that peer
         if let HandlerOut::Established(enr, addr, v::ConnectionDirection::Incoming) = &ev {
